@@ -37,7 +37,7 @@ ASSUMPTIONS = [
     "of L(M) of some length <= 10 avoids the basis the answer must be 'finite'",
 ]
 PARTIAL = [
-    "accepts_iff_contains (Bassino-Bouvel-Pierrot-Rossin) is now PROVED: C14.basisAccepts_iff_contains (Props/C14.lean A6': for m in L(M), |m|>=2, basisAccepts B m <-> perm(m_to_sp m) contains some b in B; with C15.pipeline_language it covers the automaton of make_dfa_for_basis) and C14.hasFinitePinperms_iff (has_finite_pinperms B <-> the B-avoiding permutations of strict pin words are bounded in length); sigma is stated through C14's mToSp/pinwordToPerm (the bridge for Model.C15.pinwordToPerm is proved, C14C15.decode_bridge; the one for Model.C15.mToSp is evaluated: ops sembits/accs still run as tests)",
+    "accepts_iff_contains (Bassino-Bouvel-Pierrot-Rossin) is now PROVED: C14.basisAccepts_iff_contains (Props/C14.lean A6': for m in L(M), |m|>=2, basisAccepts B m <-> perm(m_to_sp m) contains some b in B; with C15.pipeline_language it covers the automaton of make_dfa_for_basis) and C14.hasFinitePinperms_iff (has_finite_pinperms B <-> the B-avoiding permutations of strict pin words are bounded in length); sigma was first stated through C14's mToSp/pinwordToPerm; the bridges to C15's own copies are now all PROVED (Props/C15Ext.lean: mToSp_bridge and isStrict_bridge for EVERY word, no well-formedness needed; C14C15.decode_bridge for pinwordToPerm) and the theorem is restated entirely on Model.C15 functions: accepts_iff_contains_own (mToSp m = some w, isStrict w, pinwordToPerm w = ok sigma, dfaForBasis B accepts m <-> sigma contains some b in B) and has_finite_pinperms_iff_own; finpin_eq proves that the verdict the driver prints (after its run-time certificate test) is showBool (hasFinitePinperms B). The ops sembits/accs remain as a correspondence test of the real code",
     'db_equiv: shipped dfa_db automata language-equivalent to the automata computed from scratch -- complete comparison of canonical minimal automata for every shipped file (ops dbcanon/canondb), not a Lean theorem',
 ]
 TRUSTED = ["automata-lib 7.x (DFA.from_nfa, union, difference, isfinite, accepts_input) - not modelled, results compared"]
